@@ -276,7 +276,7 @@ func c01(args []string) {
 	for _, sh := range []gen.PathShape{gen.ShapePlain, gen.ShapeNested, gen.ShapeParent, gen.ShapeAbs} {
 		for r := 0; r < c.Pick(1, 3); r++ {
 			cases = append(cases, &faultCase{tc: topoCase{"fanin", sh, false, 2}, label: "fail=overlapping-failures", key: "A",
-				opts: map[string]string{"fail": []string{"exit-mid-write", "exit-after-write"}[r%2], "sleep": "60", "noise": "4000000"}, cfg: Cfg{Buf: 128, Procs: 4, Quiet: true, SlowErr: true, NoHooks: r%2 == 1}})
+				opts: map[string]string{"fail": []string{"exit-mid-write", "exit-after-write"}[r%2], "sleep": "60", "noise": "12000000"}, cfg: Cfg{Buf: 128, Procs: 4, Quiet: true, SlowErr: true, NoHooks: r%2 == 1}})
 		}
 	}
 	run.Parallel(len(cases), func(i int) {
